@@ -138,3 +138,98 @@ func sameKeyScenario(wr *child.Writer, caseID string, r *rand.Rand, thorough boo
 	}
 	wr.Record(rec)
 }
+
+// replaceVsGroupDelete: one writer re-points an installed prefix / label at a second, so far
+// unreferenced group while another writer deletes that group at the same moment. Whatever
+// the order, an operation that was NOT acknowledged as programmed has changed nothing: if
+// the re-pointing ADD was answered FAILED (or is held), the entry is still installed with
+// the payload it had. (Both acknowledged is the known check-then-act window of 9.4 and is
+// not judged.)
+func replaceVsGroupDelete(wr *child.Writer, caseID string, r *rand.Rand, thorough bool) {
+	R := rib.New(server.DefaultNetworkInstanceName)
+	ni := server.DefaultNetworkInstanceName
+	id := uint64(0)
+	apply := func(op *spb.AFTOperation) (int, int, error) {
+		oks, fails, err := mon.Apply(R, gen.OpSpec{NI: ni, Op: op})
+		return len(oks), len(fails), err
+	}
+	mk := func(kind spb.AFTOperation_Operation) *spb.AFTOperation {
+		id++
+		return &spb.AFTOperation{Id: id, NetworkInstance: ni, Op: kind}
+	}
+	group := func(kind spb.AFTOperation_Operation, gid uint64) *spb.AFTOperation {
+		op := mk(kind)
+		k := &aftpb.Afts_NextHopGroupKey{Id: gid}
+		if kind != spb.AFTOperation_DELETE {
+			k.NextHopGroup = &aftpb.Afts_NextHopGroup{NextHop: []*aftpb.Afts_NextHopGroup_NextHopKey{{Index: 1, NextHop: &aftpb.Afts_NextHopGroup_NextHop{Weight: gen.U(1)}}}}
+		}
+		op.Entry = &spb.AFTOperation_NextHopGroup{NextHopGroup: k}
+		return op
+	}
+	entry := func(kind int, gid uint64) *spb.AFTOperation {
+		op := mk(spb.AFTOperation_ADD)
+		switch kind {
+		case 0:
+			op.Entry = &spb.AFTOperation_Ipv4{Ipv4: &aftpb.Afts_Ipv4EntryKey{Prefix: "10.0.0.0/8", Ipv4Entry: &aftpb.Afts_Ipv4Entry{NextHopGroup: gen.U(gid)}}}
+		case 1:
+			op.Entry = &spb.AFTOperation_Ipv6{Ipv6: &aftpb.Afts_Ipv6EntryKey{Prefix: "2001:db8::/32", Ipv6Entry: &aftpb.Afts_Ipv6Entry{NextHopGroup: gen.U(gid)}}}
+		default:
+			op.Entry = &spb.AFTOperation_Mpls{Mpls: &aftpb.Afts_LabelEntryKey{Label: &aftpb.Afts_LabelEntryKey_LabelUint64{LabelUint64: 100}, LabelEntry: &aftpb.Afts_LabelEntry{NextHopGroup: gen.U(gid)}}}
+		}
+		return op
+	}
+	nh := mk(spb.AFTOperation_ADD)
+	nh.Entry = &spb.AFTOperation_NextHop{NextHop: &aftpb.Afts_NextHopKey{Index: 1, NextHop: &aftpb.Afts_NextHop{IpAddress: gen.S("192.0.2.1")}}}
+	for _, op := range []*spb.AFTOperation{nh, group(spb.AFTOperation_ADD, 1), entry(0, 1), entry(1, 1), entry(2, 1)} {
+		if ok, _, err := apply(op); ok != 1 || err != nil {
+			wr.Record(map[string]any{"kind": "inconclusive", "case": caseID, "text": fmt.Sprintf("set-up: %v %v", ok, err)})
+			return
+		}
+	}
+	y := mon.NewYielder(r.Int63(), 2, 40)
+	rib.VerifSetPoint(y.Point)
+	defer rib.VerifSetPoint(nil)
+	rounds := 800
+	if thorough {
+		rounds = 15000
+	}
+	judged := 0
+	for t := 0; t < rounds; t++ {
+		kind := t % 3
+		if ok, _, err := apply(group(spb.AFTOperation_ADD, 2)); ok != 1 || err != nil {
+			wr.Record(map[string]any{"kind": "inconclusive", "case": caseID, "text": fmt.Sprintf("round %d: group 2 could not be added: %v %v", t, ok, err)})
+			return
+		}
+		old := entry(kind, 1)
+		key, pOld, _ := canon.OpKey(old)
+		repoint, del := entry(kind, 2), group(spb.AFTOperation_DELETE, 2)
+		var wg sync.WaitGroup
+		start := make(chan struct{})
+		var rOK, rFail int
+		var rErr error
+		wg.Add(2)
+		go func() { defer wg.Done(); <-start; rOK, rFail, rErr = apply(repoint) }()
+		go func() { defer wg.Done(); <-start; apply(del) }()
+		close(start)
+		wg.Wait()
+		c, err := R.RIBContents()
+		if err != nil {
+			wr.Record(map[string]any{"kind": "problem", "case": caseID, "sig": "rib-contents-error", "text": err.Error()})
+			return
+		}
+		got, present := canon.FromYgot(c)[ni][key]
+		if rOK == 0 {
+			judged++
+			if !present || got != pOld {
+				wr.Record(map[string]any{"kind": "problem", "case": caseID, "sig": "unacknowledged-operation-changed-the-entry:" + key.T.String(), "text": fmt.Sprintf("round %d: an ADD re-pointing %s at group 2 raced with the DELETE of group 2 and was not programmed (failed=%d err=%v), yet the entry, installed as %s before, is now %q (present=%v)", t, key.K, rFail, rErr, pOld, got, present)})
+				return
+			}
+		}
+		// back to the start of the round: the entry points at group 1, group 2 is gone,
+		// nothing is held
+		R.DropPending()
+		apply(entry(kind, 1))
+		apply(group(spb.AFTOperation_DELETE, 2))
+	}
+	wr.Record(map[string]any{"kind": "stats", "repointing_adds_raced_by_the_delete_of_their_group": rounds, "of_which_not_programmed_and_judged": judged})
+}
